@@ -81,7 +81,13 @@ fn main() {
                     orchestrate::worker(prop.as_ref(), tier, a, b, c, d, e)
                 })
                 .expect("spawn worker thread");
-            let _ = h.join();
+            if h.join().is_err() {
+                // a panic outside the guarded execution of a scenario is a defect of the harness itself (generator,
+                // oracle), never a verdict: exit code 3 tells the orchestrator so
+                let p = resolvo_sim::run::take_last_panic();
+                eprintln!("harness panic in worker: {} at {}:{}", p.msg, p.file, p.line);
+                std::process::exit(3);
+            }
         }
         "replay" => {
             if args.len() < 3 {
